@@ -41,10 +41,12 @@ func init() {
 		Extra:      scriptedBare("C01")})
 	reg(&sim.SimCheck{Prop: "C03", Workload: "c03", Profile: advProfile(merge(noBare, map[string]int{"outsider": 15, "mutate": 35, "twistedNV": 12, "support": 20}), 500, 2),
 		QuickCases: 5000, ThoroughCases: 120000,
-		NonTrivial: func(r *sim.Result) bool { return r.Stats["C03 commits validated on a peer"] > 0 && r.Stats["delivered adversarial"] > 0 },
-		Rule:       "as C01; every commit callback's (block, proof) is re-validated with strict ValidateBlockConsensus on another correct node and by the reference certificate predicate; non-trivial = a commit was judged in a case where adversarial messages were delivered",
-		Floors:     map[string]int{"C03 commits validated on a peer": 1000},
-		Judged:     []string{"C03 commits validated on a peer"}})
+		NonTrivial: func(r *sim.Result) bool {
+			return r.Stats["C03 commits validated on a peer"] > 0 && r.Stats["delivered adversarial"] > 0
+		},
+		Rule:   "as C01; every commit callback's (block, proof) is re-validated with strict ValidateBlockConsensus on another correct node and by the reference certificate predicate; non-trivial = a commit was judged in a case where adversarial messages were delivered",
+		Floors: map[string]int{"C03 commits validated on a peer": 1000},
+		Judged: []string{"C03 commits validated on a peer"}})
 	reg(&sim.SimCheck{Prop: "C04", Workload: "c04", Profile: advProfile(merge(noBare, map[string]int{"badBlock": 25, "twistedNV": 20, "support": 25, "forgedNV": 8, "equivocate": 10, "crossInstance": 14}), 500, 2),
 		QuickCases: 5000, ThoroughCases: 120000,
 		NonTrivial: func(r *sim.Result) bool { return r.Stats["C04 commits judged"] > 0 && r.Stats["adv badBlock"] > 0 },
@@ -60,16 +62,20 @@ func init() {
 		Extra:      scriptedBare("C07")})
 	reg(&sim.SimCheck{Prop: "C08", Workload: "c08", Profile: advProfile(merge(noBare, map[string]int{"mutate": 60, "outsider": 15, "vcGames": 12}), 400, 2),
 		QuickCases: 5000, ThoroughCases: 100000,
-		NonTrivial: func(r *sim.Result) bool { return r.Stats["C08 must-ignore deliveries"] > 0 && r.Stats["delivered adversarial"] > 0 },
-		Rule:       "adversarial cases rich in field-by-field mutations of wire messages, outsiders and vote games; every Store* call is judged for authenticity and every delivery the reference says must be ignored is checked for effects; non-trivial = adversarial must-ignore deliveries were judged",
-		Floors:     map[string]int{"C08 stores judged": 20000, "C08 must-ignore deliveries": 20000, "adv mutate": 5000},
-		Judged:     []string{"C08 stores judged", "C08 deliveries judged", "C08 must-ignore deliveries"}})
+		NonTrivial: func(r *sim.Result) bool {
+			return r.Stats["C08 must-ignore deliveries"] > 0 && r.Stats["delivered adversarial"] > 0
+		},
+		Rule:   "adversarial cases rich in field-by-field mutations of wire messages, outsiders and vote games; every Store* call is judged for authenticity and every delivery the reference says must be ignored is checked for effects; non-trivial = adversarial must-ignore deliveries were judged",
+		Floors: map[string]int{"C08 stores judged": 20000, "C08 must-ignore deliveries": 20000, "adv mutate": 5000},
+		Judged: []string{"C08 stores judged", "C08 deliveries judged", "C08 must-ignore deliveries"}})
 	reg(&sim.SimCheck{Prop: "C09", Workload: "c09", Profile: advProfile(merge(noBare, map[string]int{"vcGames": 25, "support": 20, "equivocate": 8}), 600, 2),
 		QuickCases: 5000, ThoroughCases: 100000,
-		NonTrivial: func(r *sim.Result) bool { return r.Stats["C09 locked view changes judged"] > 0 || r.Stats["C09 new views re-proposing a lock"] > 0 },
-		Rule:       "adversarial and honest cases with many timeouts; every VIEW_CHANGE a correct node sends after having been prepared and every NEW_VIEW a correct leader sends is judged against its own input history; non-trivial = a locked VIEW_CHANGE or a lock-re-proposing NEW_VIEW was judged",
-		Floors:     map[string]int{"C09 locked view changes judged": 2000, "C09 new views judged": 1000, "C09 new views re-proposing a lock": 200},
-		Judged:     []string{"C09 locked view changes judged", "C09 new views judged", "C09 new views re-proposing a lock"}})
+		NonTrivial: func(r *sim.Result) bool {
+			return r.Stats["C09 locked view changes judged"] > 0 || r.Stats["C09 new views re-proposing a lock"] > 0
+		},
+		Rule:   "adversarial and honest cases with many timeouts; every VIEW_CHANGE a correct node sends after having been prepared and every NEW_VIEW a correct leader sends is judged against its own input history; non-trivial = a locked VIEW_CHANGE or a lock-re-proposing NEW_VIEW was judged",
+		Floors: map[string]int{"C09 locked view changes judged": 2000, "C09 new views judged": 1000, "C09 new views re-proposing a lock": 200},
+		Judged: []string{"C09 locked view changes judged", "C09 new views judged", "C09 new views re-proposing a lock"}})
 	reg(&sim.SimCheck{Prop: "C10", Workload: "c10", Profile: advProfile(merge(noBare, map[string]int{"equivocate": 20, "support": 25, "mutate": 20}), 500, 2),
 		QuickCases: 5000, ThoroughCases: 100000,
 		NonTrivial: func(r *sim.Result) bool { return r.Forky && r.Stats["C10 commits judged"] > 0 },
@@ -78,10 +84,12 @@ func init() {
 		Judged:     []string{"C10 proposals judged", "C10 prepares judged", "C10 commits judged", "C10 view changes judged", "C10 commits by commit quorum"}})
 	reg(&sim.SimCheck{Prop: "C11", Workload: "c11", Profile: advProfile(merge(noBare, map[string]int{"vcGames": 25, "outsider": 12, "support": 20, "mutate": 20}), 600, 2),
 		QuickCases: 5000, ThoroughCases: 100000,
-		NonTrivial: func(r *sim.Result) bool { return r.Stats["C11 judged NEW_VIEW"] > 0 && r.Stats["delivered adversarial"] > 0 },
-		Rule:       "adversarial cases aimed at poisoning what correct nodes later emit; every delivery of a correct node's NEW_VIEW / VIEW_CHANGE / PREPARE / COMMIT to a correct peer that meets the stated precondition is judged for acceptance; non-trivial = a NEW_VIEW delivery was judged in a case with adversarial deliveries",
-		Floors:     map[string]int{"C11 judged NEW_VIEW": 1000, "C11 judged VIEW_CHANGE": 3000, "C11 judged PREPARE": 3000, "C11 judged COMMIT": 3000},
-		Judged:     []string{"C11 judged NEW_VIEW", "C11 judged VIEW_CHANGE", "C11 judged PREPARE", "C11 judged COMMIT", "C11 NV precondition unmet", "C11 VC precondition unmet", "C11 P precondition unmet"}})
+		NonTrivial: func(r *sim.Result) bool {
+			return r.Stats["C11 judged NEW_VIEW"] > 0 && r.Stats["delivered adversarial"] > 0
+		},
+		Rule:   "adversarial cases aimed at poisoning what correct nodes later emit; every delivery of a correct node's NEW_VIEW / VIEW_CHANGE / PREPARE / COMMIT to a correct peer that meets the stated precondition is judged for acceptance; non-trivial = a NEW_VIEW delivery was judged in a case with adversarial deliveries",
+		Floors: map[string]int{"C11 judged NEW_VIEW": 1000, "C11 judged VIEW_CHANGE": 3000, "C11 judged PREPARE": 3000, "C11 judged COMMIT": 3000},
+		Judged: []string{"C11 judged NEW_VIEW", "C11 judged VIEW_CHANGE", "C11 judged PREPARE", "C11 judged COMMIT", "C11 NV precondition unmet", "C11 VC precondition unmet", "C11 P precondition unmet"}})
 	reg(&sim.SimCheck{Prop: "C05", Workload: "c05", Profile: func(th bool) *sim.Profile {
 		p := advProfile(merge(noBare, map[string]int{"vcGames": 25, "support": 15, "outsider": 8, "hugeView": 6, "garbage": 4, "mutate": 20}), 300, 2)(th)
 		p.Tail = true
@@ -117,10 +125,12 @@ func init() {
 		return p
 	},
 		QuickCases: 4000, ThoroughCases: 80000,
-		NonTrivial: func(r *sim.Result) bool { return r.Stats["adv garbage"]+r.Stats["adv hugeView"]+r.Stats["adv mutate"] > 5 && r.Stats["C05 tails judged"] > 0 },
-		Rule:       "sim: hostile prefix (random / truncated / bit-flipped / length-corrupted bytes, extreme views and heights, empty ids and proofs, missing blocks, field mutations, replays) delivered at PRNG-chosen points to real worker loops; a panic escaping the worker, or recovered by it while handling a message the reference decoder reads completely, is a violation; then a quiet stabilised tail in which the attacked nodes must commit (bounded progress). rt: the same kinds of input through HandleConsensusMessage / ValidateBlockConsensus / GetMemberIdsFromBlockProof of a running node (race detector on): no panic reaches the supervising loops, the victim keeps committing. non-trivial (sim) = more than 5 hostile inputs and a judged tail",
-		Floors:     map[string]int{"adv garbage": 5000, "adv hugeView": 3000, "adv mutate": 10000, "C05 tails judged": 1500, "C05 tails with commit": 1500},
-		Judged:     []string{"adv garbage", "adv hugeView", "adv mutate", "delivered adversarial", "C05 tails judged", "C05 tails with commit", "C12 malformed messages dropped after a parser panic"},
+		NonTrivial: func(r *sim.Result) bool {
+			return r.Stats["adv garbage"]+r.Stats["adv hugeView"]+r.Stats["adv mutate"] > 5 && r.Stats["C05 tails judged"] > 0
+		},
+		Rule:   "sim: hostile prefix (random / truncated / bit-flipped / length-corrupted bytes, extreme views and heights, empty ids and proofs, missing blocks, field mutations, replays) delivered at PRNG-chosen points to real worker loops; a panic escaping the worker, or recovered by it while handling a message the reference decoder reads completely, is a violation; then a quiet stabilised tail in which the attacked nodes must commit (bounded progress). rt: the same kinds of input through HandleConsensusMessage / ValidateBlockConsensus / GetMemberIdsFromBlockProof of a running node (race detector on): no panic reaches the supervising loops, the victim keeps committing. non-trivial (sim) = more than 5 hostile inputs and a judged tail",
+		Floors: map[string]int{"adv garbage": 5000, "adv hugeView": 3000, "adv mutate": 10000, "C05 tails judged": 1500, "C05 tails with commit": 1500},
+		Judged: []string{"adv garbage", "adv hugeView", "adv mutate", "delivered adversarial", "C05 tails judged", "C05 tails with commit", "C12 malformed messages dropped after a parser panic"},
 		Extra: func(run *harness.Run) ([]harness.Finding, map[string]interface{}, []string) {
 			fs, ev, inc := rtPart(run, "hostile", 32, 1200, map[string]int{"C12 hostile inputs": 2000, "C12 victims judged for progress": 16})
 			fs2, ev2, inc2 := rtPart(run, "flood", 4, 60, map[string]int{"C12 floods judged": 4})
